@@ -342,7 +342,8 @@ Section NewCounter.
   Definition nc_post (r : nc_result) (bs' : bytes) : Prop :=
     exists off limit' tbl' rcd,
       r = NCOk off /\ spec_read bs' = Some (hdr, m, kv, limit', tbl') /\
-      limit <= limit' /\ len bs <= len bs' /\ len bs' <= len bs + 32768 /\
+      (limit <= limit' /\ (limit' = limit \/ limit' mod 32 = 0)) /\
+      len bs <= len bs' /\ len bs' <= len bs + 32768 /\
       handle_ok meta hdr bs' /\ tail_zero bs' hdr /\ tail4_same bs bs' /\
       In rcd (concat tbl') /\ r_off rcd = off /\ r_name rcd = name /\
       ((bs' = bs /\ tbl' = tbl /\ limit' = limit) \/
@@ -373,7 +374,7 @@ Section NewCounter.
     - (* the name is there *)
       apply find_name_some in Ef as [Hr En]. cbn [fst snd].
       exists (r_off r), limit, tbl, r.
-      split; [reflexivity|]. split; [exact Hread|]. split; [lia|]. split; [lia|]. split; [lia|].
+      split; [reflexivity|]. split; [exact Hread|]. split; [split; [lia|left; reflexivity]|]. split; [lia|]. split; [lia|].
       split; [exact Hhandle|]. split; [exact Htail|]. split; [intros i _ _; reflexivity|].
       split; [apply in_concat; exists c; split; assumption|]. split; [reflexivity|]. split; [exact En|].
       left. repeat split.
@@ -444,7 +445,8 @@ Section NewCounter.
       { unfold place_lim in P2. destruct (N.eqb_spec limit 0); lia. }
       assert (Hl' : len bs' = len bs + k') by exact (eq_trans L3 Hlen1).
       exists start, e, (zip_upd buckets (hash name) (start, name, 0) tbl), (start, name, 0).
-      split; [reflexivity|]. split; [exact L1|]. split; [lia|]. split; [lia|]. split; [lia|].
+      split; [reflexivity|]. split; [exact L1|].
+      split; [split; [lia|right; rewrite P4; pose proof P1 as P1'; divlia]|]. split; [lia|]. split; [lia|].
       split; [|split; [|split; [|split; [|split; [reflexivity|split; [reflexivity|]]]]]].
       + destruct Hhandle as (h0 & Hm0 & Hp0 & E0). exists h0. repeat split; try assumption.
         eapply has_prefix_agree; [apply (has_prefix_app_l bs (zeros k') h0 Hp0)|lia|].
